@@ -104,17 +104,18 @@ PROPS["C20"] = dict(
 
 PROPS["C09"] = dict(
     level="other", claimed=True, verus=True,
-    level_text="Kani (complete, loop-free, every power-of-two size 2^0..2^63): permute_index is the bit reversal of its argument, stays below "
-               "the size, is an involution and injective. Verus (body cut out of /repo, abstract element type): the in-place permutation "
-               "FftInputs::permute that ends every evaluate_poly* / interpolate_poly* call moves, for every power-of-two length, the "
-               "element at the bit-reversed position to each position (against permute_index's Kani-proved contract). The transforms "
-               "themselves rest on a bounded stand-in (native execution of the real code against direct evaluation written in the "
-               "check): FFT evaluation / interpolation with offsets and blowups, degree inference, the column-batched and segmented "
-               "low-degree extension of matrices and Segment::new at every polynomial offset agree with direct polynomial evaluation "
-               "on the enumerated space.",
-    level_note="The butterfly network (fft_in_place) is written with iterator adapters the installed Verus rejects and its correctness "
-               "is an identity over symbolic field values beyond CBMC: stand-in only, bounded as stated in coverage.native_bounded_standins. "
-               "The multi-threaded variants (`concurrent` feature) are not built.",
+    level_text="Verus (unit fftcore, body cut out of /repo, abstract elements and twiddles, no size bound): the butterfly network "
+               "fft_in_place - the core of every evaluate_poly* / interpolate_poly* / segment LDE - with its (count, stride, offset) "
+               "batching and MAX_LOOP recursion switch computes, on each interleaved subsequence, the textbook radix-2 "
+               "decimation-in-time recursion (outputs in bit-reversed order) and touches nothing else, for every power-of-two length, "
+               "every element value and every twiddle table. Verus (unit fftv): the in-place permutation FftInputs::permute that follows "
+               "moves the element at the bit-reversed position to each position. Kani (complete, loop-free, every size 2^0..2^63): "
+               "permute_index is the bit reversal, an involution and injective. That the recursion equals the discrete Fourier transform "
+               "for the twiddles the library builds, offsets, blowups, interpolation, degree inference and the column-batched / segmented "
+               "LDE rest on a bounded stand-in (native execution of the real code against direct evaluation written in the check).",
+    level_note="Not decided deductively: fft(s) == DFT(s) for tw[k] = w^bitrev(k) (a property of the specification function over a field), "
+               "get_twiddles / get_inv_twiddles, the offset / blowup wrappers (iterator-adapter bodies), the [[E; N]] butterflies. Bounded "
+               "as stated in coverage.native_bounded_standins. The multi-threaded variants (`concurrent` feature) are not built.",
     explanation=MIX)
 
 PROPS["C17"] = dict(
